@@ -293,7 +293,8 @@ class BackendVSA(Backend):
             # TODO: Do we want to do anything here?
             return o
 
-        raise ValueError(f"Unsupported annotation type {type(a)} for object {type(o)}")
+        # annotations this backend does not interpret leave the object unchanged (as Backend.apply_annotation does)
+        return o
 
     @staticmethod
     def BVV(ast):
